@@ -10,14 +10,21 @@ RULE = ('stream args: selection arguments (all/empty/comma strings with blanks/l
         'the 8 documented names in the thorough tier) applied with select(flags=...) to synthetic v4, v3 and v2 data '
         'sets whose stored flag bytes run through all 256 values; a case is one (format, argument) pair, non-trivial '
         'when the argument names at least one flag, distinct by (format, canonical argument).  stream v4cal: random '
-        'v4 data sets (2-3 antennas, random chunking) with random stored flag bytes (all 8 bits), lost chunks of '
-        'correlator_data / flags / weights / weights_channel, opened without calibration or with applycal = G and/or '
+        'v4 data sets (2-3 antennas, 3-6 dumps; chunk layouts drawn independently per stored array, or related to the '
+        'flags grid: same grid / every boundary shifted / same block sizes in another order / one boundary moved, '
+        'incl. layouts where a lost chunk has the shape of a flags chunk and lies across two of them - forced on every '
+        'seed) with random stored flag bytes (all 8 bits), lost chunks of '
+        'correlator_data / flags / weights / weights_channel (the set of elements they cover is computed by the model '
+        'from the layout, wire 163), opened without calibration or with applycal = G and/or '
         'B products whose solutions are powers of two with NaN inputs / NaN band edges / a second B event; then a '
         'random history of 5-8 select() calls (flags= present or absent, selections with and without postproc and '
         'data_lost, weights=, dumps/channels/pol/ants/corrprods/reset); after EVERY call d.raw_flags, d.flags, d.vis '
         'and d.weights are compared with the extracted model; a case is one (data set, history prefix), non-trivial '
         'when the data set has a lost chunk or an invalid correction inside the current selection, distinct by '
-        '(configuration, step).  stream concat: ConcatenatedDataSet of 2-3 members (v4+v4, v3+v3, v2+v2, v3+v4; stored '
+        '(configuration, step).  stream threads: select(flags=...) on a v4 data set, then the FIRST read of the new flags '
+        'indexer by 2-3 threads with a forced interleaving (the first reader is held inside the transform chain of the '
+        'indexer object while the others read); every reader must get the boolean (raw & mask) != 0; a case is one '
+        '(selection, pause position, number of late readers, dump selection).  stream concat: ConcatenatedDataSet of 2-3 members (v4+v4, v3+v3, v2+v2, v3+v4; stored '
         'flag bytes cover 0..255 in every member; v4 members with a lost chunk or opened with applycal; members '
         'optionally pre-selected on their own with flags= / weights= before the concatenation; shuffled input order) '
         'under a history of 6-20 select() calls on the whole (flags= in every spelling incl. the empty ones \'\', [], (); '
@@ -31,6 +38,10 @@ ASSUMPTIONS = ['v2/v3 files without a flags_description table (the default descr
                '(G constant in time, B piecewise constant in time with NaN only at band edges or for whole inputs); '
                'the general derivation of corrections from solutions is C13/C14',
                'v4cal stream: correction factors are powers of two, so vis and weights are compared exactly',
+               'v4cal stream: no preselect window, all four arrays have the same number of dumps, no separate flags '
+               'stream, npy chunk store (the lost-map theorems hold for any window and phantom dumps; C06 generates them)',
+               'threads stream: only the first read of one flags indexer is forced to interleave (select() concurrent '
+               'with reads is C20 / C17)',
                'concat stream: all members of a concatenation lie in one subarray and one spectral window (checked when '
                'the fixture is built); the time / frequency / product selection of the whole is taken from the data set '
                '(dumps, channels, _corrprod_keep) - that it is right is C02 / C19; vis and weights are compared with what '
@@ -39,6 +50,22 @@ ASSUMPTIONS = ['v2/v3 files without a flags_description table (the default descr
                'one-shot iterator)']
 
 DOC = ['reserved0', 'static', 'cam', 'data_lost', 'ingest_rfi', 'predicted_rfi', 'cal_rfi', 'postproc']
+
+
+def _have(ctx, wire):
+    """Is this wire of the extracted model usable?  (A Model file that does not compile on the tree under test - e.g.
+    because a translator item it needs failed closed - is left out of the driver; the streams then go on with the
+    Python fallbacks as the failing-input search.)"""
+    if not ctx.model_ok:
+        return False
+    try:
+        import json
+        import os
+        from vh import core
+        lo = os.path.join(core.EXTRACT_DIR, 'left_out_wires.json')
+        return not (os.path.exists(lo) and str(wire) in json.load(open(lo)))
+    except Exception:
+        return True
 
 
 def codes(s):
@@ -79,20 +106,32 @@ def build(ctx):
     sets = {}
     B = 12
     fl = (np.arange(T * F * B) * 37 % 256).astype(np.uint8).reshape(T, F, B)
-    x = v4.build_v4(T=T, F=F, arrays={'flags': fl}, tmp=tmp + '/v4', seed=ctx.seed,
-                    chunks={'correlator_data': (2, 4, 12), 'flags': (1, 8, 12)},
-                    lose=[('sdp_l0', 'correlator_data', (1, 1, 0))])
+    import os
+
+    def opened(fmt, fn):
+        # a data set of the args stream that cannot even be opened is a failing input of its own (the case replays it)
+        try:
+            return fn()
+        except Exception as ex:
+            ctx.disagree('fmt=%s;what=open_raises;exc=%s' % (fmt, type(ex).__name__), dict(fmt=fmt, arg='all'),
+                         repr(ex)[:300], 'a data set', 'opening the synthetic %s data set of the args stream raised' % fmt)
+            return None
+    x = opened('v4', lambda: v4.build_v4(T=T, F=F, arrays={'flags': fl}, tmp=tmp + '/v4', seed=ctx.seed,
+                                         chunks={'correlator_data': (2, 4, 12), 'flags': (1, 8, 12)},
+                                         lose=[('sdp_l0', 'correlator_data', (1, 1, 0))]))
     lost = np.zeros((T, F, B), bool)
     lost[2:4, 4:8, :] = True
-    sets['v4'] = (x.d, fl, lost)
+    if x is not None:
+        sets['v4'] = (x.d, fl, lost)
     B = 10
     fl3 = (np.arange(T * F * B) * 37 % 256).astype(np.uint8).reshape(T, F, B)
-    import os
     os.makedirs(tmp + '/h5')
-    d3, st3, _ = h5.open_v3(tmp + '/h5', T=T, F=F, flags=fl3, seed=ctx.seed)
-    sets['v3'] = (d3, fl3, np.zeros_like(fl3, bool))
-    d2, st2, _ = h5.open_v2(tmp + '/h5', T=T, F=F, flags=fl3, seed=ctx.seed)
-    sets['v2'] = (d2, fl3, np.zeros_like(fl3, bool))
+    r3 = opened('v3', lambda: h5.open_v3(tmp + '/h5', T=T, F=F, flags=fl3, seed=ctx.seed))
+    if r3 is not None:
+        sets['v3'] = (r3[0], fl3, np.zeros_like(fl3, bool))
+    r2 = opened('v2', lambda: h5.open_v2(tmp + '/h5', T=T, F=F, flags=fl3, seed=ctx.seed))
+    if r2 is not None:
+        sets['v2'] = (r2[0], fl3, np.zeros_like(fl3, bool))
     return tmp, sets
 
 
@@ -174,10 +213,37 @@ def check_selection(ctx, fmt, d, stored, lost, arg, mouts):
                      dict(fmt=fmt, arg=canon_arg(arg), at=bad.tolist(), raw=int(exp_raw[tuple(bad)])),
                      bool(flags[tuple(bad)]), bool(exp[tuple(bad)]),
                      'boolean flag differs from (raw & mask(selected names)) != 0', spec=spec_mask)
+    if fmt == 'v4':
+        # raw flags and flags fetched JOINTLY in one dask graph (DaskLazyIndexer.get, the way mvftoms reads): the raw
+        # flags must still be stored | data_lost whatever the selection does to the flags that share their blocks
+        try:
+            from katdal.lazy_indexer import DaskLazyIndexer
+            jraw, jflags = [np.asarray(a) for a in DaskLazyIndexer.get([d.raw_flags, d.flags], np.s_[:, :, :])]
+        except Exception as e:
+            ctx.disagree('fmt=v4;what=joint_read_raises;exc=%s' % type(e).__name__, dict(fmt=fmt, arg=canon_arg(arg), joint=True),
+                         repr(e)[:200], 'arrays', 'DaskLazyIndexer.get([d.raw_flags, d.flags], ...) raised')
+            return
+        if not np.array_equal(jraw, exp_raw):
+            bad = np.argwhere(jraw != exp_raw)[0]
+            ctx.disagree('fmt=v4;what=raw_flags;read=joint', dict(fmt=fmt, arg=canon_arg(arg), joint=True, at=bad.tolist()),
+                         int(jraw[tuple(bad)]), int(exp_raw[tuple(bad)]),
+                         'raw flags read jointly with the flags differ from stored|data_lost (the flag selection leaks into them)',
+                         spec=int(exp_raw[tuple(bad)]))
+        if jflags.dtype != bool or not np.array_equal(jflags, exp):
+            ctx.disagree('fmt=v4;what=flags_bool;read=joint', dict(fmt=fmt, arg=canon_arg(arg), joint=True),
+                         str(jflags.dtype), 'bool', 'flags read jointly with the raw flags differ from (raw & mask) != 0',
+                         spec=spec_mask)
     ctx.traces_validated += 1
 
 
 def run(ctx):
+    import time
+    t_run = [time.time()]
+    walls = ctx.extra.setdefault('stream_wall_s', {})
+
+    def lap(name):
+        walls[name] = round(walls.get(name, 0.0) + time.time() - t_run[0], 1)
+        t_run[0] = time.time()
     del _INCOQ[:]
     args = gen_args(ctx)
     mcases = [[16, [1, wire_arg(a)]] for a in args]
@@ -206,7 +272,14 @@ def run(ctx):
                 ctx.count('fmt=' + fmt)
                 ctx.count('argkind=' + ('str' if isinstance(a, str) else 'list'))
             # interleavings with other select() calls: flag/weight selection must not move anything else
+            lap('args')
             interleave(ctx, fmt, d, stored, lost, base_vis)
+            lap('interleave')
+            if fmt == 'v4':
+                # the first read of a new flags indexer by several threads at once (forced interleaving)
+                for trial in THREAD_TRIALS + [gen_thread_trial(ctx.rng) for _ in range(ctx.scale(1, 16))]:
+                    run_threads(ctx, d, stored, lost, trial)
+                lap('threads')
     finally:
         shutil.rmtree(tmp, ignore_errors=True)
     ctx.exhaustive = False
@@ -228,6 +301,7 @@ def run(ctx):
     n = ctx.scale(14, 150)
     for i in range(n):
         run_v4cal(ctx, gen_v4cal(ctx.rng, ctx.tier, force=FORCED[i] if i < len(FORCED) else None))
+    lap('v4cal')
     # concatenated data sets (v4+v4, v3+v3, v2+v2, v3+v4) under histories of flag / weight selections
     for fn in sorted(glob.glob(os.path.join(corpus, '*.replay.json'))):
         case = json.load(open(fn)).get('case', {})
@@ -241,6 +315,7 @@ def run(ctx):
     n = ctx.scale(10, 90)
     for i in range(n):
         run_concat(ctx, gen_concat(ctx.rng, ctx.tier, force=CONCAT_FORCED[i] if i < len(CONCAT_FORCED) else None))
+    lap('concat')
     if ctx.tier == 'thorough' and ctx.model_ok and not ctx.searching:
         # extraction cross-check: the same cases through vm_compute inside Coq
         from vh import core
@@ -336,7 +411,7 @@ def interleave(ctx, fmt, d, stored, lost, base_vis):
     d.select()
     trace.append(({}, _internal(fmt, d)))
     # the internal state (mask, weight indices) after every call against the faithful model of select() (wire 162)
-    if ctx.model_ok:
+    if _have(ctx, 162):
         hw = [[_wire_opt(k, 'flags'), _wire_opt(k, 'weights')] for k, _ in trace]
         mo = ctx.model([[162, [1, FMT_CODE[fmt], hw]]])[0]
         for j, (k, (mask, wts)) in enumerate(trace):
@@ -386,7 +461,13 @@ def replay(ctx, doc):
         return
     tmp, sets = build(ctx)
     try:
+        if case.get('stream') == 'threads':
+            if 'v4' in sets:
+                run_threads(ctx, sets['v4'][0], sets['v4'][1], sets['v4'][2], case['trial'])
+            return
         fmt = case.get('fmt', 'v4')
+        if fmt not in sets:
+            return      # opening raised again: recorded by build()
         d, stored, lost = sets[fmt]
         a = case.get('arg', case.get('flags', 'all'))
         mo = ctx.model([[16, [1, wire_arg(a)]]])[0] if ctx.model_ok else spec_py(a)
@@ -397,6 +478,121 @@ def replay(ctx, doc):
 
 
 # ---------------------------------------------------------------------------------------------------------------
+# stream threads: the FIRST read of one d.flags indexer by several threads at once, with a forced interleaving
+# ---------------------------------------------------------------------------------------------------------------
+THREAD_TRIALS = [dict(arg='cam', pause_at=0), dict(arg=['static', 'cal_rfi', 'postproc'], pause_at=1),
+                 dict(arg='all', pause_at=0), dict(arg='data_lost', pause_at=0, dumps=[1, 4], late=2)]
+PAUSE_S = 0.5       # how long the first reader waits inside the transform chain for the late readers to come back
+
+
+def gen_thread_trial(rng):
+    a = rng.choice(FLAG_POOL + ['cam', 'static,cal_rfi', 'all'])
+    t = dict(arg=a, pause_at=rng.randrange(2), late=rng.choice([1, 1, 2]))
+    if rng.random() < 0.4:
+        lo = rng.randrange(3)
+        t['dumps'] = [lo, rng.randint(lo + 1, 4)]
+    return t
+
+
+def run_threads(ctx, d, stored, lost, trial):
+    """select(flags=arg) makes a new flags indexer whose dask graph is built lazily on first use.  The first reader is
+    held inside the transform chain (before transform number pause_at; the transforms of the indexer object are wrapped,
+    katdal itself is not touched) while `late` more threads read the SAME indexer; on a correct library they wait for
+    the first one (the pause ends after PAUSE_S).  Every reader, and a later read, must see (raw & mask) != 0 as bool."""
+    import threading
+    arg = trial['arg']
+    case = dict(stream='threads', trial=trial)
+    mo = ctx.model([[16, [1, wire_arg(arg)]]])[0] if ctx.model_ok else spec_py(arg)
+    spec_mask = mo[1]
+    sel = 'all' if spec_mask == 255 else ('empty' if spec_mask == 0 else 'named')
+    results, errors = {}, {}
+    try:
+        kw = dict(flags=arg if isinstance(arg, str) else list(arg))
+        if 'dumps' in trial:
+            kw['dumps'] = slice(*trial['dumps'])
+        d.select(**kw)
+        ix = np.ix_(d.dumps, d.channels, np.nonzero(d._corrprod_keep)[0])
+        flags = d.flags
+        transforms = getattr(flags, 'transforms', None)
+        if not isinstance(transforms, list) or not transforms:
+            ctx.disagree('stream=threads;what=no_transforms', case, repr(transforms)[:100], 'a list of transforms',
+                         'the v4 flags indexer has no transform chain to build lazily')
+            return
+        entered, proceed = threading.Event(), threading.Event()
+        k = min(trial.get('pause_at', 0), len(transforms) - 1)
+        real = transforms[k]
+
+        def paused(x, _real=real):
+            if not entered.is_set():
+                entered.set()
+                proceed.wait(timeout=10.0)
+            return _real(x)
+        transforms[k] = paused
+
+        def reader(who):
+            try:
+                results[who] = np.asarray(flags[:])
+            except Exception as ex:       # noqa: BLE001
+                errors[who] = repr(ex)[:200]
+        first = threading.Thread(target=reader, args=('first',))
+        first.start()
+        try:
+            if not entered.wait(timeout=10.0):
+                ctx.disagree('stream=threads;what=transform_never_called', case, None, 'transform %d called' % k,
+                             'the first read of d.flags never ran its transform chain')
+                return
+            late = [threading.Thread(target=reader, args=('late%d' % j,)) for j in range(trial.get('late', 1))]
+            for t in late:
+                t.start()
+            t_end = PAUSE_S
+            for t in late:
+                t.join(timeout=t_end)      # on a correct library the late readers are waiting for the first one
+                t_end = 0.01
+        finally:
+            proceed.set()
+        first.join()
+        for t in late:
+            t.join()
+        results['later'] = np.asarray(flags[:])
+        raw = np.asarray(d.raw_flags[:])
+    except Exception as ex:
+        ctx.disagree('stream=threads;what=raises;exc=%s' % type(ex).__name__, case, repr(ex)[:300], 'arrays',
+                     'select(flags=...) / reading d.flags from several threads raised')
+        _recover(d)
+        return
+    exp_raw = (stored | (lost.astype(np.uint8) << 3))[ix]
+    exp = (exp_raw & np.uint8(spec_mask)) != 0
+    for who in ['first'] + ['late%d' % j for j in range(trial.get('late', 1))] + ['later']:
+        role = 'late' if who.startswith('late') and who != 'later' else who
+        if who in errors:
+            ctx.disagree('stream=threads;obs=flags;reader=%s;symptom=raises;sel=%s' % (role, sel), dict(case, reader=who),
+                         errors[who], 'bool array', 'a thread reading d.flags raised')
+            continue
+        got = results.get(who)
+        if got is None or got.dtype != bool or got.shape != exp.shape:
+            ctx.disagree('stream=threads;obs=flags;reader=%s;symptom=dtype;sel=%s' % (role, sel), dict(case, reader=who),
+                         None if got is None else [str(got.dtype), list(got.shape), got.ravel()[:4].tolist()],
+                         ['bool', list(exp.shape)],
+                         'd.flags read by the %s thread is not a boolean array of the selected shape (the transform chain '
+                         'bitwise_and / view-as-bool was not (fully) applied)' % role, spec=['bool', list(exp.shape)])
+        elif not np.array_equal(got, exp):
+            bad = tuple(int(b) for b in np.argwhere(got != exp)[0])
+            ctx.disagree('stream=threads;obs=flags;reader=%s;symptom=values;sel=%s' % (role, sel),
+                         dict(case, reader=who, at=list(bad)), bool(got[bad]), bool(exp[bad]),
+                         'd.flags read by the %s thread differs from (raw byte & mask of %r) != 0' % (role, arg),
+                         spec=bool(exp[bad]))
+    if not np.array_equal(raw, exp_raw):
+        ctx.disagree('stream=threads;obs=raw_flags;sel=%s' % sel, case, raw.ravel()[:4].tolist(), exp_raw.ravel()[:4].tolist(),
+                     'raw flags differ from stored | data_lost after concurrent reads of d.flags')
+    ctx.traces_validated += 1
+    ctx.note_case(('threads', canon_arg(arg), trial.get('pause_at', 0), trial.get('late', 1), repr(trial.get('dumps'))),
+                  nontrivial=bool(exp.any()), sample=dict(stream='threads', trial=trial, mask=spec_mask))
+    ctx.count('threads_trials')
+    ctx.count('threads:sel=%s' % sel)
+    d.select()
+
+
+# ---------------------------------------------------------------------------------------------------------------
 # stream v4cal: v4 data sets WITH applycal and lost chunks under random selection histories
 # ---------------------------------------------------------------------------------------------------------------
 FLAG_POOL = ['all', '', [], 'cam', 'postproc', 'data_lost', 'cam,postproc', 'data_lost,ingest_rfi', 'static,cal_rfi',
@@ -404,8 +600,9 @@ FLAG_POOL = ['all', '', [], 'cam', 'postproc', 'data_lost', 'cam,postproc', 'dat
              'postproc,data_lost', ' cam , postproc ', 'bogus', ['nope', 'postproc'], ['cam', 'cam'], 'reserved0',
              'predicted_rfi', list(DOC)]
 # the first configurations of every run are forced so that every seed meets the important corners
-FORCED = [dict(calmode='G', nan=True, lose=True), dict(calmode='GB', nan=True, lose=True),
-          dict(calmode='none', lose=True), dict(calmode='B', nan=True, lose=False)]
+FORCED = [dict(calmode='G', nan=True, lose=True, layout='straddle'), dict(calmode='GB', nan=True, lose=True, lose_each=True),
+          dict(calmode='none', lose=True, layout='straddle'), dict(calmode='B', nan=True, lose=False)]
+ARRAYS = ('correlator_data', 'flags', 'weights', 'weights_channel')     # numbering of Model/LostMap.v
 
 
 def _compositions(rng, n, maxparts=3):
@@ -414,10 +611,96 @@ def _compositions(rng, n, maxparts=3):
     return [b - a for a, b in zip([0] + cuts, cuts + [n])]
 
 
+def _cuts(comp):
+    out, a = [], 0
+    for c in comp[:-1]:
+        a += c
+        out.append(a)
+    return out
+
+
+def _from_cuts(cuts, n):
+    cuts = sorted(set(c for c in cuts if 0 < c < n))
+    return [b - a for a, b in zip([0] + cuts, cuts + [n])]
+
+
+def _related_chunking(rng, n, base):
+    """A chunking of an axis of length n for one array GIVEN the flags chunking `base` of that axis: the same grid,
+    the same grid with every boundary shifted (the first chunk is cut short; a chunk of the array then has the size of
+    a flags chunk but lies across two of them), the same block sizes in another order (same block count, other
+    boundaries), one boundary moved by one element, or a chunking drawn independently."""
+    r = rng.random()
+    if r < 0.2:
+        return list(base)
+    if r < 0.55 and max(base) > 1:
+        delta = rng.randint(1, max(base) - 1)
+        return _from_cuts([delta] + [c + delta for c in _cuts(base)], n)
+    if r < 0.7 and len(set(base)) > 1:
+        perm = list(base)
+        for _ in range(6):
+            rng.shuffle(perm)
+            if perm != list(base):
+                break
+        return perm
+    if r < 0.8 and len(base) > 1:
+        cuts = _cuts(base)
+        i = rng.randrange(len(cuts))
+        cuts[i] += rng.choice([-1, 1])
+        return _from_cuts(cuts, n)
+    return _compositions(rng, n, 4)
+
+
+def _extents(comp):
+    out, a = [], 0
+    for c in comp:
+        out.append((a, a + c))
+        a += c
+    return out
+
+
+def straddlers(chunks, name):
+    """Block indices [it, if] of the chunks of array `name` that have the (time, channel) shape of a flags chunk they
+    overlap WITHOUT coinciding with it (only possible when the boundaries of the two chunkings are shifted against
+    each other)."""
+    ft, ff = [_extents(c) for c in chunks['flags']]
+    out = []
+    for it, (t0, t1) in enumerate(_extents(chunks[name][0])):
+        for jf, (f0, f1) in enumerate(_extents(chunks[name][1])):
+            for (a0, a1) in ft:
+                for (b0, b1) in ff:
+                    overlap = a0 < t1 and t0 < a1 and b0 < f1 and f0 < b1
+                    if overlap and (a1 - a0, b1 - b0) == (t1 - t0, f1 - f0) and (a0, b0) != (t0, f0) and [it, jf] not in out:
+                        out.append([it, jf])
+    return out
+
+
+def gen_chunks(rng, T, F, layout):
+    """Chunkings (time, channel) of the four stored arrays: every array on its own, independently of the others
+    (layout 'independent'), or the three other arrays related to the flags chunking by _related_chunking (layouts
+    'related' and 'straddle'; 'straddle' insists on a correlator_data / weights chunk with the shape of a flags chunk
+    lying across flags chunks)."""
+    for _ in range(200):
+        chunks = {}
+        if layout == 'independent':
+            for name in ARRAYS:
+                chunks[name] = [_compositions(rng, T), _compositions(rng, F)]
+        else:
+            ft = _compositions(rng, T, 4)
+            if layout == 'straddle' and max(ft) < 2:
+                continue
+            chunks['flags'] = [ft, _compositions(rng, F)]
+            for name in ARRAYS:
+                if name != 'flags':
+                    chunks[name] = [_related_chunking(rng, T, chunks['flags'][0]), _related_chunking(rng, F, chunks['flags'][1])]
+        if layout != 'straddle' or straddlers(chunks, 'correlator_data') or straddlers(chunks, 'weights'):
+            return chunks
+    raise RuntimeError('no straddling layout found for T=%d F=%d' % (T, F))
+
+
 def gen_v4cal(rng, tier='quick', force=None, fixed=None):
     force = force or {}
     n_ant = rng.choice([2, 2, 3])
-    T, F = rng.randint(3, 5), rng.randint(4, 8)
+    T, F = rng.randint(3, 6), rng.randint(4, 8)
     if fixed:       # a member of a concatenation: sizes are given
         n_ant, T, F = fixed.get('n_ant', n_ant), fixed.get('T', T), fixed.get('F', F)
     ants = ['m%03d' % a for a in range(n_ant)]
@@ -448,17 +731,28 @@ def gen_v4cal(rng, tier='quick', force=None, fixed=None):
         products['B'] = events
     applycal = ['l1.' + t for t in products]
     rng.shuffle(applycal)
-    chunks = {}
-    for name in ('correlator_data', 'flags', 'weights', 'weights_channel'):
-        chunks[name] = [_compositions(rng, T), _compositions(rng, F)]
+    layout = force.get('layout') or rng.choice(['independent', 'related', 'related', 'straddle'])
+    chunks = gen_chunks(rng, T, F, layout)
     lose = []
     if force.get('lose', rng.random() < 0.8):
-        for name in ('correlator_data', 'flags', 'weights', 'weights_channel'):
+        for name in ARRAYS:
             if rng.random() < (0.7 if name == 'correlator_data' else 0.3):
                 for _ in range(rng.randint(1, 2)):
                     idx = [rng.randrange(len(chunks[name][0])), rng.randrange(len(chunks[name][1]))]
                     if [name, idx] not in lose:
                         lose.append([name, idx])
+        if force.get('lose_each'):
+            for name in ARRAYS:      # every seed: a lost chunk of EACH stored array in one data set
+                if not any(n == name for n, _ in lose):
+                    lose.append([name, [rng.randrange(len(chunks[name][0])), rng.randrange(len(chunks[name][1]))]])
+        if layout == 'straddle':
+            # a lost chunk with the shape of a flags chunk that lies ACROSS flags chunks (never lose all of them: the
+            # elements of those flags chunks that keep their data are the interesting ones)
+            cand = [[n, i] for n in ('correlator_data', 'weights') for i in straddlers(chunks, n)]
+            rng.shuffle(cand)
+            for c in cand[:rng.randint(1, 2)]:
+                if c not in lose:
+                    lose.append(c)
         if not lose:
             lose.append(['correlator_data', [0, 0]])
     hist = []
@@ -497,7 +791,7 @@ def gen_v4cal(rng, tier='quick', force=None, fixed=None):
                 {'reset': 1}, {'flags': 'all'}] + hist
     return dict(stream='v4cal', T=T, F=F, ants=ants, seed=rng.randrange(10 ** 6), calmode=calmode,
                 cal=dict(antlist=antlist, pol_ordering=pols, products=products), applycal=applycal,
-                chunks=chunks, lose=lose, hist=hist, shuffle_bls=rng.random() < 0.3,
+                chunks=chunks, layout=layout, lose=lose, hist=hist, shuffle_bls=rng.random() < 0.3,
                 index=[rng.choice([None, None, 2]), rng.choice([None, None, 2])])
 
 
@@ -575,6 +869,28 @@ def v4cal_expected(cfg, stored, bls):
                 lostw=full(lost['weights'] | lost['weights_channel']), calok=calok, k=kk,
                 re=vis.real.astype(int), im=vis.imag.astype(int), w=stored['weights'].astype(int),
                 we=np.broadcast_to(we[:, :, np.newaxis], (T, F, B)))
+
+
+def _lost_ids(cfg):
+    """start coordinates of the deleted chunks, per array in the numbering of Model/LostMap.v."""
+    out = []
+    for name in ARRAYS:
+        ids = []
+        for n, idx in cfg['lose']:
+            if n == name:
+                comp = cfg['chunks'][name]
+                ids.append([sum(comp[0][:idx[0]]), sum(comp[1][:idx[1]])] + ([0] if name != 'weights_channel' else []))
+        out.append(ids)
+    return out
+
+
+def lostmap_wire(cfg, stored_flags, calok, hist, B):
+    """wire 163: the data set as a configuration of C06's lost-map model (chunkings as written, deleted chunk ids, the
+    stored flag bytes, the valid-correction map) + every prefix of the history."""
+    chunks = [[list(cfg['chunks'][n][0]), list(cfg['chunks'][n][1])] + ([[B]] if n != 'weights_channel' else [])
+              for n in ARRAYS]
+    return [163, [1, [_hist_wire(hist[:i + 1]) for i in range(len(hist))], chunks, [], _lost_ids(cfg),
+                  np.asarray(stored_flags).astype(int).ravel().tolist(), np.asarray(calok).astype(int).ravel().tolist()]]
 
 
 def _samples_wire(e):
@@ -669,14 +985,40 @@ def run_v4cal(ctx, cfg):
             return
         e = v4cal_expected(cfg, x.stored, bls)
         hist = cfg['hist']
+        lx = None
+        if _have(ctx, 163) and _have(ctx, 161):
+            # `where applicable` comes from the model: the lost sets of every array are derived in Coq from the chunk
+            # layout and the deleted chunk ids (Model/FlagsLost.v on C06's lost map); the harness's own masks
+            # (_chunk_mask) only serve as a cross-check of the wire encoding
+            wcase = lostmap_wire(cfg, x.stored['flags'], e['calok'], hist, B)
+            lx = ctx.model([wcase])[0]
+            if lx == [-999] or len(lx) != 7 or lx[0] != [T, F, B] or len(lx[6]) != len(hist):
+                ctx.disagree('stream=v4cal;what=model_error;wire=163', dict(stream='v4cal', cfg=cfg), None,
+                             lx if len(str(lx)) < 300 else str(lx)[:300], 'lost-map model returned an error', kind='tie')
+                return
+            if len(_INCOQ) < 12 and T * F * B <= 200:
+                _INCOQ.append((wcase, lx))
+            for k, col in (('lostf', 3), ('lostv', 4), ('lostw', 5)):
+                got = np.array(lx[col], bool).reshape(T, F, B)
+                if not np.array_equal(got, e[k]):
+                    bad = tuple(int(b) for b in np.argwhere(got != e[k])[0])
+                    ctx.disagree('stream=v4cal;what=lost_set;array=%s;vs=model' % k, dict(stream='v4cal', cfg=cfg, at=list(bad)),
+                                 bool(e[k][bad]), bool(got[bad]),
+                                 'the set of elements covered by a deleted chunk computed by the harness differs from '
+                                 'lost_in of the model', kind='tie')
+                    return
+                e[k] = got
         samples = _samples_wire(e)
-        if ctx.model_ok:
+        if _have(ctx, 161):
             mouts = ctx.model([[161, [1, _hist_wire(hist[:i + 1]), samples]] for i in range(len(hist))])
         else:
             mouts = [v4cal_py(e, hist[:i + 1]) for i in range(len(hist))]
         s1, s2 = [slice(None) if s is None else slice(None, None, s) for s in cfg.get('index', [None, None])]
         sel_names = 'all'
+        n_before = len(ctx.disagreements)
         for i, st in enumerate(hist):
+            if len(ctx.disagreements) > n_before:
+                return      # a data set stops at the first call after which something disagreed (the replay ends there)
             case = dict(stream='v4cal', cfg=dict(cfg, hist=hist[:i + 1]), step=i)
             mo = mouts[i]
             if mo == [-999] or len(mo) != 3:
@@ -686,6 +1028,18 @@ def run_v4cal(ctx, cfg):
                 ctx.disagree('stream=v4cal;what=model_vs_spec_mask', case, mo[0], mo[1],
                              'model mask after the history differs from the spec mask')
             m = np.array(mo[2], dtype=np.int64).reshape(T, F, B, 9)
+            if lx is not None:
+                # raw flags / flags: MODEL = the lost map algorithm of ChunkStoreVisFlagsWeights (columns 0, 1),
+                # SPEC = stored | data_lost on the exact lost set | postproc on the exact invalid set (columns 7, 8);
+                # the per-sample model of wire 161 fed with the exact lost sets must say the same (refinement theorem)
+                hx = lx[6][i]
+                m163 = np.stack([np.array(lx[1]), np.array(hx[2]), np.array(lx[2]), np.array(hx[3])], axis=1).reshape(T, F, B, 4)
+                if hx[0] != mo[0] or hx[1] != mo[1] or not np.array_equal(m163[..., 2], m[..., 7]) \
+                        or not np.array_equal(m163[..., 3], m[..., 8]):
+                    ctx.disagree('stream=v4cal;what=sample_spec_vs_lostmap_spec', case, [hx[0], hx[1]], [mo[0], mo[1]],
+                                 'spec columns of wire 161 (fed with the exact lost sets) and of wire 163 differ', kind='tie')
+                    return
+                m[..., 0], m[..., 1] = m163[..., 0], m163[..., 1]
             sel_names = st.get('flags', sel_names)
             try:
                 kw = _select_kwargs(st)
@@ -716,7 +1070,9 @@ def run_v4cal(ctx, cfg):
                 exp_raw = ms[..., c_raw]
                 if not np.array_equal(raw, exp_raw):
                     bad = tuple(np.argwhere(raw != exp_raw)[0])
-                    ctx.disagree('stream=v4cal;obs=raw_flags;bits=%s;%s%s' % (_bit_names(raw ^ exp_raw.astype(np.uint8)), tag, sfx),
+                    lost_here = bool((e['lostf'] | e['lostv'] | e['lostw'])[ix][s1, s2][bad])
+                    ctx.disagree('stream=v4cal;obs=raw_flags;bits=%s;element=%s;%s%s'
+                                 % (_bit_names(raw ^ exp_raw.astype(np.uint8)), 'lost' if lost_here else 'intact', tag, sfx),
                                  dict(case, at=[int(b) for b in bad]), int(raw[bad]), int(ms[bad][0]),
                                  'v4 raw_flags differ from stored | data_lost | postproc under the current flag selection %r'
                                  % (sel_names,), spec=int(ms[bad][7]), kind=kind)
@@ -973,6 +1329,13 @@ def run_concat(ctx, cfg):
     ftag = fmts[0] if len(set(fmts)) == 1 else 'mixed'      # kind of concatenation (the count is in the case)
     members = []
     hist = cfg['hist']
+    if not _have(ctx, 162):
+        # searching with the Python fallback concat_py: it states the documented behaviour of calls on the WHOLE only (a
+        # member selected directly re-applies its own earlier keywords on later direct calls - only the faithful model
+        # of wire 162 follows that), so the history ends before the first call made directly on a member
+        cut = next((i for i, st in enumerate(hist) if 'member' in st), len(hist))
+        hist = hist[:cut]
+        cfg = dict(cfg, hist=hist)
     try:
         try:
             members = build_concat(cfg, tmp)
@@ -993,7 +1356,7 @@ def run_concat(ctx, cfg):
                  for f, steps in zip(fmts, cfg['pre'])]
         hwire = [([1, st['member']] if 'member' in st else [0]) + [_wire_opt(st, 'flags'), _wire_opt(st, 'weights')]
                  for st in hist]
-        if ctx.model_ok:
+        if _have(ctx, 162):
             mo = ctx.model([[162, [2, mwire, hwire]]])[0]
             _INCOQ.append(([162, [2, mwire, hwire]], mo))
         else:
